@@ -26,8 +26,10 @@ def Launch.started : Launch → Bool
 /-- Every critical task became active. -/
 def allCriticalLaunched (ls : List (Bool × Launch)) : Bool := ls.all (fun l => !l.1 || l.2.started)
 
-/-! The corners where the code (and so the faithful model) departs from the property: each is the excluded
-    hypothesis of a `…_partial` theorem and the id of a finding. -/
+/-! The corners where the code (and so the faithful model) departs or departed from the property: each is the excluded
+    hypothesis of a `…_partial` theorem and the id of a finding. Four of the seven were repaired in /repo
+    (single_target_ignores_critical, zero_targets_error, configure_nothing_hangs, rpc_ok_on_failed_transition): the
+    verdict `judge` no longer names them (`openCorner`), so a regression is a plain violation. -/
 
 /-- The command goes to nobody. -/
 def noTargets (ts : List Target) : Bool := ts.isEmpty
@@ -101,12 +103,22 @@ def judgeSteps (st : St) (tasks : List Task) : List SStep → List Obs → Optio
       | some h => some h
       | none => if reached d o then judgeSteps d (afterCommand tasks outs) rest os else none
 
-def judge (sc : Scenario) : List Obs → Option String
+/-- The verdict with EVERY corner named, the repaired ones too (the analysis of the code as it was: `Cfg.legacy`). -/
+def judgeAll (sc : Scenario) : List Obs → Option String
   | [] => none
   | o :: os =>
     let tasks : List Task := sc.wf.tasks.map (fun t => { critical := t.1, active := t.2 = .ok })
     match judgeNew sc.wf (targets (pair tasks sc.configure)) o with
     | some h => some h
     | none => if reached .CONFIGURED o then judgeSteps .CONFIGURED (afterCommand tasks sc.configure) sc.steps os else none
+
+/-- The corners that are still open findings (all in DEPLOY). -/
+def openCorner (h : String) : Bool :=
+  h == "deploy_empty_workflow" || h == "deploy_misses_active" || h == "deploy_noncritical_blocks"
+
+/-- Spec.C02 on an observed run: `none` = as demanded; `some id` = violated inside the open corner `id`;
+    `some "-"` = violated elsewhere (which includes the four repaired corners). -/
+def judge (sc : Scenario) (os : List Obs) : Option String :=
+  (judgeAll sc os).map (fun h => if openCorner h then h else "-")
 
 end Trans
